@@ -128,13 +128,18 @@ func execGreedy(g *graph.DGraph, params graph.Params) {
 		}
 	}
 
-	// reverse edges that point right
+	// reverse edges that point right; collect them first, because reversing an edge
+	// removes it from the out-edge list that is being iterated
+	var reversable []*graph.Edge
 	for _, n := range g.Nodes {
 		for _, e := range n.Out {
 			if p.arcdiag[n] > p.arcdiag[e.To] {
-				e.Reverse()
+				reversable = append(reversable, e)
 			}
 		}
+	}
+	for _, e := range reversable {
+		e.Reverse()
 	}
 }
 
